@@ -264,6 +264,12 @@ class CountBits(Harness):
             tot = misc.count_bit_errors(np.array(a, dtype=object),
                                         np.array(b, dtype=object))
             one_ = misc.count_bit_errors(a[0], b[0])
+            # two-dimensional arrays with the optional `axis` argument
+            A2 = np.array([[a[0], a[1]], [b[1], a[0]]], dtype=object)
+            B2 = np.array([[b[0], b[1]], [a[1], b[1]]], dtype=object)
+            ax_none = misc.count_bit_errors(A2, B2)
+            ax0 = misc.count_bit_errors(A2, B2, 0)
+            ax1 = misc.count_bit_errors(A2, B2, 1)
         finally:
             misc.count_bits = old
         # count_bits(.) results are opaque symbols standing for pop(arg)
@@ -275,6 +281,22 @@ class CountBits(Harness):
         ctx.prove('count_bit_errors==hamming', SBool(tot_z == ref))
         ctx.prove('count_bit_errors-scalar',
                   SBool(one_z == _pop(a[0].z ^ b[0].z)))
+
+        def H(i, j):
+            return _pop(A2[i, j].z ^ B2[i, j].z)
+        ok_shape = np.shape(ax0) == (2, ) and np.shape(ax1) == (2, ) and \
+            np.shape(ax_none) == ()
+        if not ok_shape:
+            ctx.record('count_bit_errors-axis-shape', 'sat', 'structural',
+                       model={})
+        else:
+            zs = lambda t: z3.substitute(t.z, *sub)
+            ctx.prove('count_bit_errors-axis', SBool(z3.And(
+                zs(ax_none) == H(0, 0) + H(0, 1) + H(1, 0) + H(1, 1),
+                zs(ax0[0]) == H(0, 0) + H(1, 0),
+                zs(ax0[1]) == H(0, 1) + H(1, 1),
+                zs(ax1[0]) == H(0, 0) + H(0, 1),
+                zs(ax1[1]) == H(1, 0) + H(1, 1))))
 
     def replay(self, cfg, name, model):
         misc = repo_module(MISC)
@@ -300,6 +322,15 @@ class CountBits(Harness):
         exp = sum(bin(x ^ y).count('1') for x, y in zip(a, b))
         if got != exp:
             bad.append(('count_bit_errors', a, b, got, exp))
+        A2 = np.array([[a[0], a[1]], [b[1], a[0]]], dtype=np.int64)
+        B2 = np.array([[b[0], b[1]], [a[1], b[1]]], dtype=np.int64)
+        Hm = np.array([[bin(int(x) ^ int(y)).count('1') for x, y in zip(
+            ra, rb)] for ra, rb in zip(A2, B2)])
+        for ax in (None, 0, 1):
+            g = misc.count_bit_errors(A2, B2, ax)
+            if not np.array_equal(np.asarray(g), Hm.sum(axis=ax)):
+                bad.append(('count_bit_errors', 'axis=%r' % (ax, )))
+                break
         return dict(reproduced=bool(bad),
                     key='C15/bits/' + '+'.join(sorted({x[0] for x in bad})),
                     detail=bad)
